@@ -3,7 +3,7 @@
     evaluation, every value it stores is correct, and the stack discipline is
     restored whatever happens. *)
 From Coq Require Import List ZArith Bool Arith Lia.
-From MX Require Import Exec.Model Exec.Spec Exec.Basics Exec.SpecMono.
+From MX Require Import Exec.Model Exec.Spec Exec.Basics Exec.SpecMono Exec.Masks.
 Import ListNotations.
 
 (** * Invariant and frame *)
@@ -113,29 +113,29 @@ Definition sim_expr (f : nat) : Prop :=
   forall st args locs line e r st',
     eval_expr f st args locs line e = (r, st') -> r <> OutOfFuel -> Inv st ->
     Inv st' /\ frame st st' /\
-    agrees r (fun g => sp_expr g (defs_of st) (input_data st) args locs e).
+    (s_masks st' = s_masks st -> agrees r (fun g => sp_expr g (defs_of st) (input_data st) args locs e)).
 Definition sim_args (f : nat) : Prop :=
   forall st args locs line es r st',
     eval_args f st args locs line es = (r, st') -> r <> OutOfFuel -> Inv st ->
     Inv st' /\ frame st st' /\
-    agrees r (fun g => sp_args g (defs_of st) (input_data st) args locs es).
+    (s_masks st' = s_masks st -> agrees r (fun g => sp_args g (defs_of st) (input_data st) args locs es)).
 Definition sim_node (f : nat) : Prop :=
   forall st line i r st',
     eval_node f st line i = (r, st') -> r <> OutOfFuel -> Inv st ->
     Inv st' /\ frame st st' /\
-    agrees r (fun g => sp_node g (defs_of st) (input_data st) i).
+    (s_masks st' = s_masks st -> agrees r (fun g => sp_node g (defs_of st) (input_data st) i)).
 Definition sim_formula (f : nat) : Prop :=
   forall st cl i r st',
     eval_formula f st cl i = (r, st') -> r <> OutOfFuel -> Inv st ->
     lookup_cell (s_cells st) (fst i) = Some cl ->
     (if cl_cached cl then lookup_data (s_data st) i else None) = None ->
     Inv st' /\ frame st st' /\
-    agrees r (fun g => sp_node g (defs_of st) (input_data st) i).
+    (s_masks st' = s_masks st -> agrees r (fun g => sp_node g (defs_of st) (input_data st) i)).
 Definition sim_body (f : nat) : Prop :=
   forall st args locs whole rest idx r st' ln,
     exec_body f st args locs whole rest idx = (r, st', ln) -> r <> OutOfFuel -> Inv st ->
     Inv st' /\ frame st st' /\
-    agrees r (fun g => sp_body g (defs_of st) (input_data st) args locs rest).
+    (s_masks st' = s_masks st -> agrees r (fun g => sp_body g (defs_of st) (input_data st) args locs rest)).
 
 Ltac inv_pair :=
   match goal with
@@ -153,6 +153,8 @@ Proof.
   split; [assumption|]. rewrite lookup_input_data, Hni. reflexivity.
 Qed.
 
+Ltac leaf := split; [assumption|split; [apply frame_refl|intros _]].
+
 Lemma sim_all : forall f, sim_expr f /\ sim_args f /\ sim_node f /\ sim_formula f /\ sim_body f.
 Proof.
   induction f as [|f (IHe & IHa & IHn & IHf & IHb)].
@@ -163,19 +165,19 @@ Proof.
   - (* expr *)
     intros st args locs line e r st' H Hr HI.
     destruct e; simpl in H.
-    + inv_pair. repeat split; try apply HI; try apply frame_refl. exists 1. reflexivity.
-    + inv_pair. repeat split; try apply HI; try apply frame_refl.
+    + inv_pair. leaf. exists 1. reflexivity.
+    + inv_pair. leaf.
       destruct (nth_error args i) eqn:E; simpl; [exists 1|right; exists 1]; simpl; now rewrite E.
-    + inv_pair. repeat split; try apply HI; try apply frame_refl.
+    + inv_pair. leaf.
       destruct (nth_error locs i) eqn:E; simpl; [exists 1|right; exists 1]; simpl; now rewrite E.
     + (* EBin *)
       destruct (eval_expr f st args locs line e1) as [[va|k|] st1] eqn:E1.
-      * destruct (IHe _ _ _ _ _ _ _ E1 ltac:(discriminate) HI) as (I1 & F1 & (g1 & A1)).
+      * destruct (IHe _ _ _ _ _ _ _ E1 ltac:(discriminate) HI) as (I1 & F1 & A1).
         destruct (frame_defs _ _ F1) as (D1 & P1).
         destruct (eval_expr f st1 args locs line e2) as [[vb|k|] st2] eqn:E2.
-        -- destruct (IHe _ _ _ _ _ _ _ E2 ltac:(discriminate) I1) as (I2 & F2 & (g2 & A2)).
+        -- destruct (IHe _ _ _ _ _ _ _ E2 ltac:(discriminate) I1) as (I2 & F2 & A2).
            rewrite D1, P1 in A2. inv_pair.
-           split; [assumption|]. split; [eapply frame_trans; eauto|].
+           split; [assumption|]. split; [eapply frame_trans; eauto|]. intros Hmk; openA. destruct A1 as (g1 & A1). destruct A2 as (g2 & A2).
            assert (B1 := sp_expr_mono _ (Nat.max g1 g2) _ _ _ _ _ _ A1 ltac:(discriminate) ltac:(lia)).
            assert (B2 := sp_expr_mono _ (Nat.max g1 g2) _ _ _ _ _ _ A2 ltac:(discriminate) ltac:(lia)).
            destruct (arith o va vb) eqn:Ar; simpl.
@@ -184,26 +186,26 @@ Proof.
            ++ exact I.
         -- destruct (IHe _ _ _ _ _ _ _ E2 ltac:(discriminate) I1) as (I2 & F2 & A2).
            rewrite D1, P1 in A2. inv_pair.
-           split; [assumption|]. split; [eapply frame_trans; eauto|].
+           split; [assumption|]. split; [eapply frame_trans; eauto|]. intros Hmk; openA. destruct A1 as (g1 & A1).
            destruct A2 as [->|(g2 & A2)]; [now left|right].
            assert (B1 := sp_expr_mono _ (Nat.max g1 g2) _ _ _ _ _ _ A1 ltac:(discriminate) ltac:(lia)).
            assert (B2 := sp_expr_mono _ (Nat.max g1 g2) _ _ _ _ _ _ A2 ltac:(discriminate) ltac:(lia)).
            exists (S (Nat.max g1 g2)). simpl. now rewrite B1, B2.
         -- inv_pair. congruence.
       * destruct (IHe _ _ _ _ _ _ _ E1 ltac:(discriminate) HI) as (I1 & F1 & A1).
-        inv_pair. split; [assumption|]. split; [assumption|].
+        inv_pair. split; [assumption|]. split; [assumption|]. intros Hmk; openA.
         destruct A1 as [->|(g1 & A1)]; [now left|right].
         exists (S g1). simpl. now rewrite A1.
       * inv_pair. congruence.
     + (* EIfPos *)
       destruct (eval_expr f st args locs line e1) as [[vc|k|] st1] eqn:E1.
-      * destruct (IHe _ _ _ _ _ _ _ E1 ltac:(discriminate) HI) as (I1 & F1 & (g1 & A1)).
+      * destruct (IHe _ _ _ _ _ _ _ E1 ltac:(discriminate) HI) as (I1 & F1 & A1).
         destruct (frame_defs _ _ F1) as (D1 & P1).
         destruct vc as [z|].
         -- destruct (Z.ltb 0 z) eqn:Ez.
            ++ destruct (IHe _ _ _ _ _ _ _ H Hr I1) as (I2 & F2 & A2).
               rewrite D1, P1 in A2.
-              split; [assumption|]. split; [eapply frame_trans; eauto|].
+              split; [assumption|]. split; [eapply frame_trans; eauto|]. intros Hmk; openA. destruct A1 as (g1 & A1).
               destruct r as [v|k|]; simpl in *.
               ** destruct A2 as (g2 & A2). exists (S (Nat.max g1 g2)). simpl.
                  rewrite (sp_expr_mono _ (Nat.max g1 g2) _ _ _ _ _ _ A1 ltac:(discriminate) ltac:(lia)), Ez.
@@ -215,7 +217,7 @@ Proof.
               ** exact I.
            ++ destruct (IHe _ _ _ _ _ _ _ H Hr I1) as (I2 & F2 & A2).
               rewrite D1, P1 in A2.
-              split; [assumption|]. split; [eapply frame_trans; eauto|].
+              split; [assumption|]. split; [eapply frame_trans; eauto|]. intros Hmk; openA. destruct A1 as (g1 & A1).
               destruct r as [v|k|]; simpl in *.
               ** destruct A2 as (g2 & A2). exists (S (Nat.max g1 g2)). simpl.
                  rewrite (sp_expr_mono _ (Nat.max g1 g2) _ _ _ _ _ _ A1 ltac:(discriminate) ltac:(lia)), Ez.
@@ -225,16 +227,16 @@ Proof.
                  rewrite (sp_expr_mono _ (Nat.max g1 g2) _ _ _ _ _ _ A1 ltac:(discriminate) ltac:(lia)), Ez.
                  apply (sp_expr_mono _ _ _ _ _ _ _ _ A2); [discriminate|lia].
               ** exact I.
-        -- inv_pair. split; [assumption|]. split; [assumption|].
+        -- inv_pair. split; [assumption|]. split; [assumption|]. intros Hmk; openA. destruct A1 as (g1 & A1).
            right. exists (S g1). simpl. now rewrite A1.
       * destruct (IHe _ _ _ _ _ _ _ E1 ltac:(discriminate) HI) as (I1 & F1 & A1).
-        inv_pair. split; [assumption|]. split; [assumption|].
+        inv_pair. split; [assumption|]. split; [assumption|]. intros Hmk; openA.
         destruct A1 as [->|(g1 & A1)]; [now left|right].
         exists (S g1). simpl. now rewrite A1.
       * inv_pair. congruence.
     + (* ECall *)
       destruct (eval_args f st args locs line args0) as [[vs|k|] st1] eqn:E1.
-      * destruct (IHa _ _ _ _ _ _ _ E1 ltac:(discriminate) HI) as (I1 & F1 & (g1 & A1)).
+      * destruct (IHa _ _ _ _ _ _ _ E1 ltac:(discriminate) HI) as (I1 & F1 & A1).
         destruct (frame_defs _ _ F1) as (D1 & P1).
         assert (Hc : s_cells st1 = s_cells st) by (apply static_cells, F1).
         rewrite Hc in H.
@@ -242,7 +244,7 @@ Proof.
         -- destruct (bind_pos cl vs) as [k|] eqn:Eb.
            ++ destruct (IHn _ _ _ _ _ H Hr I1) as (I2 & F2 & A2).
               rewrite D1, P1 in A2.
-              split; [assumption|]. split; [eapply frame_trans; eauto|].
+              split; [assumption|]. split; [eapply frame_trans; eauto|]. intros Hmk; openA. destruct A1 as (g1 & A1).
               destruct r as [v|kk|]; simpl in *.
               ** destruct A2 as (g2 & A2). exists (S (Nat.max g1 g2)). simpl.
                  rewrite (sp_args_mono _ (Nat.max g1 g2) _ _ _ _ _ _ A1 ltac:(discriminate) ltac:(lia)).
@@ -252,52 +254,52 @@ Proof.
                  rewrite (sp_args_mono _ (Nat.max g1 g2) _ _ _ _ _ _ A1 ltac:(discriminate) ltac:(lia)).
                  rewrite El, Eb. apply (sp_node_mono _ _ _ _ _ _ A2); [discriminate|lia].
               ** exact I.
-           ++ inv_pair. split; [assumption|]. split; [assumption|].
+           ++ inv_pair. split; [assumption|]. split; [assumption|]. intros Hmk; openA. destruct A1 as (g1 & A1).
               right. exists (S g1). simpl. now rewrite A1, El, Eb.
-        -- inv_pair. split; [assumption|]. split; [assumption|].
+        -- inv_pair. split; [assumption|]. split; [assumption|]. intros Hmk; openA. destruct A1 as (g1 & A1).
            right. exists (S g1). simpl. now rewrite A1, El.
       * destruct (IHa _ _ _ _ _ _ _ E1 ltac:(discriminate) HI) as (I1 & F1 & A1).
-        inv_pair. split; [assumption|]. split; [assumption|].
+        inv_pair. split; [assumption|]. split; [assumption|]. intros Hmk; openA.
         destruct A1 as [->|(g1 & A1)]; [now left|right].
         exists (S g1). simpl. now rewrite A1.
       * inv_pair. congruence.
     + (* ERefN *)
-      inv_pair. repeat split; try apply HI; try apply frame_refl.
+      inv_pair. leaf.
       destruct (lookup_ref (s_refs st') r0) as [[sp v]|] eqn:E; simpl;
         [exists 1|right; exists 1]; simpl; now rewrite E.
     + (* ERefA *)
       destruct (lookup_ref (s_refs st) r0) as [[sp v]|] eqn:E; inv_pair.
       * split; [exact HI|]. split; [apply frame_core; reflexivity|].
         exists 1. simpl. now rewrite E.
-      * repeat split; try apply HI; try apply frame_refl.
+      * leaf.
         right. exists 1. simpl. now rewrite E.
     + (* ERaise *)
-      inv_pair. repeat split; try apply HI; try apply frame_refl.
+      inv_pair. leaf.
       right. exists 1. reflexivity.
   - (* args *)
     intros st args locs line es r st' H Hr HI.
     destruct es as [|e rest]; simpl in H.
-    + inv_pair. repeat split; try apply HI; try apply frame_refl. exists 1. reflexivity.
+    + inv_pair. leaf. exists 1. reflexivity.
     + destruct (eval_expr f st args locs line e) as [[v|k|] st1] eqn:E1.
-      * destruct (IHe _ _ _ _ _ _ _ E1 ltac:(discriminate) HI) as (I1 & F1 & (g1 & A1)).
+      * destruct (IHe _ _ _ _ _ _ _ E1 ltac:(discriminate) HI) as (I1 & F1 & A1).
         destruct (frame_defs _ _ F1) as (D1 & P1).
         destruct (eval_args f st1 args locs line rest) as [[vs|k|] st2] eqn:E2.
-        -- destruct (IHa _ _ _ _ _ _ _ E2 ltac:(discriminate) I1) as (I2 & F2 & (g2 & A2)).
+        -- destruct (IHa _ _ _ _ _ _ _ E2 ltac:(discriminate) I1) as (I2 & F2 & A2).
            rewrite D1, P1 in A2. inv_pair.
-           split; [assumption|]. split; [eapply frame_trans; eauto|].
+           split; [assumption|]. split; [eapply frame_trans; eauto|]. intros Hmk; openA. destruct A1 as (g1 & A1). destruct A2 as (g2 & A2).
            exists (S (Nat.max g1 g2)). simpl.
            rewrite (sp_expr_mono _ (Nat.max g1 g2) _ _ _ _ _ _ A1 ltac:(discriminate) ltac:(lia)).
            now rewrite (sp_args_mono _ (Nat.max g1 g2) _ _ _ _ _ _ A2 ltac:(discriminate) ltac:(lia)).
         -- destruct (IHa _ _ _ _ _ _ _ E2 ltac:(discriminate) I1) as (I2 & F2 & A2).
            rewrite D1, P1 in A2. inv_pair.
-           split; [assumption|]. split; [eapply frame_trans; eauto|].
+           split; [assumption|]. split; [eapply frame_trans; eauto|]. intros Hmk; openA. destruct A1 as (g1 & A1).
            destruct A2 as [->|(g2 & A2)]; [now left|right].
            exists (S (Nat.max g1 g2)). simpl.
            rewrite (sp_expr_mono _ (Nat.max g1 g2) _ _ _ _ _ _ A1 ltac:(discriminate) ltac:(lia)).
            now rewrite (sp_args_mono _ (Nat.max g1 g2) _ _ _ _ _ _ A2 ltac:(discriminate) ltac:(lia)).
         -- inv_pair. congruence.
       * destruct (IHe _ _ _ _ _ _ _ E1 ltac:(discriminate) HI) as (I1 & F1 & A1).
-        inv_pair. split; [assumption|]. split; [assumption|].
+        inv_pair. split; [assumption|]. split; [assumption|]. intros Hmk; openA.
         destruct A1 as [->|(g1 & A1)]; [now left|right].
         exists (S g1). simpl. now rewrite A1.
       * inv_pair. congruence.
@@ -311,7 +313,7 @@ Proof.
             (split; [exact HI|apply frame_core; reflexivity]) || (split; [exact HI|apply frame_refl]). }
         destruct Hst as (I' & F').
         assert (r = Val v) as -> by (destruct (nearest_cached st (s_stack st)); now inv_pair).
-        split; [assumption|]. split; [assumption|].
+        split; [assumption|]. split; [assumption|]. intros Hmk; openA.
         destruct (cl_cached cl) eqn:Ec; [|discriminate].
         destruct HI as (I1 & I2). destruct (I2 i v Eh) as [Hm|(g & Hg)].
         -- exists 1. simpl. unfold defs_of; simpl. rewrite El, Ec.
@@ -319,18 +321,18 @@ Proof.
         -- exists g. exact Hg.
       * (* miss *)
         eapply IHf; eauto.
-    + inv_pair. repeat split; try apply HI; try apply frame_refl.
+    + inv_pair. leaf.
       right. exists 1. simpl. unfold defs_of; simpl. now rewrite El.
   - (* formula *)
     intros st cl i r st' H Hr HI El Em. simpl in H.
     destruct (Nat.ltb (s_maxdepth st) (List.length (s_stack st))).
-    { inv_pair. repeat split; try apply HI; try apply frame_refl. now left. }
+    { inv_pair. leaf. now left. }
     set (st1 := upd_reent (upd_log (upd_stack st (i :: s_stack st)) (i :: s_log st))
                          (s_reent st || mem_item i (s_stack st))) in *.
     assert (I1 : Inv st1) by exact HI.
     destruct (exec_body f st1 (snd i) [] (cl_body cl) (cl_body cl) 0) as [[rb st2] ln] eqn:Eb.
     destruct rb as [v|k|].
-    + destruct (IHb _ _ _ _ _ _ _ _ _ Eb ltac:(discriminate) I1) as (I2 & F2 & (g & A2)).
+    + destruct (IHb _ _ _ _ _ _ _ _ _ Eb ltac:(discriminate) I1) as (I2 & F2 & A2).
       change (defs_of st1) with (defs_of st) in A2. change (input_data st1) with (input_data st) in A2.
       destruct F2 as (S2 & K2 & M2 & P2).
       change (static st1) with (static st) in S2. change (s_stack st1) with (i :: s_stack st) in K2.
@@ -355,11 +357,15 @@ Proof.
           - transitivity (input_data st2); [apply input_data_core; congruence|exact P2]. }
         destruct Hcase as [(-> & Ea & H')|(Hnone & H')]; inversion H'; subst r st'; clear H'.
         - destruct (Hfr (rollback_frame st2 0) eq_refl eq_refl eq_refl) as (A & B). split; [exact A|]. split; [exact B|].
+          intros Hmk; openA. destruct A2 as (g & A2).
           right. exists (S g). simpl. unfold defs_of in *; simpl in *.
           rewrite El, Hmiss, A2. unfold none_check. now rewrite Ea.
         - destruct (Hfr (pop_tainted st2) eq_refl eq_refl eq_refl) as (A & B). split; [exact A|]. split; [exact B|].
+          intros Hmk; openA. destruct A2 as (g & A2).
           exists (S g). simpl. unfold defs_of in *; simpl in *.
           now rewrite El, Hmiss, A2. }
+      (* untainted: nothing was counted under this formula *)
+      specialize (A2 (body_clean_masks _ _ _ _ _ _ _ _ _ _ Eb Et)). destruct A2 as (g & A2).
       destruct (cl_cached cl) eqn:Ec.
       * destruct (miss_not_input st cl i HI Ec ltac:(now rewrite Ec)) as (Hni & Hli).
         unfold store_value in H.
@@ -376,7 +382,7 @@ Proof.
              - rewrite RK, K2. reflexivity.
              - intros j w Hl. rewrite RD. now apply M2.
              - rewrite (input_data_core _ _ RS RD). exact P2. }
-           right. exists (S g). simpl. unfold defs_of in *; simpl in *.
+           intros _. right. exists (S g). simpl. unfold defs_of in *; simpl in *.
            rewrite El, Ec, Hli, A2. unfold none_check. now rewrite Ea.
         -- unfold store_value in Hs.
            assert (H' : (r, st') = (Val v, pop_frame (upd_data st2 (set_data (s_data st2) i v)))).
@@ -407,7 +413,7 @@ Proof.
              - rewrite (input_data_core _ _ PS PD). unfold st3, input_data; simpl.
                rewrite (filter_set_data (fun x => mem_item x (s_inputs st2))) by assumption.
                exact P2. }
-           exists (S g). simpl. unfold defs_of in *; simpl in *. now rewrite El, Ec, Hli, A2.
+           intros _. exists (S g). simpl. unfold defs_of in *; simpl in *. now rewrite El, Ec, Hli, A2.
       * assert (Hcase : (v = VNone /\ cl_allow_none cl = false /\ (r, st') = (Err KNone, rollback_frame st2 0)) \/
                         (none_check cl v = Val v /\ (r, st') = (Val v, pop_frame st2))).
         { unfold none_check. destruct v; [right; split; [reflexivity|now rewrite <- H]|].
@@ -421,7 +427,7 @@ Proof.
              - rewrite RK, K2. reflexivity.
              - intros j w Hl. rewrite RD. now apply M2.
              - rewrite (input_data_core _ _ RS RD). exact P2. }
-           right. exists (S g). simpl. unfold defs_of in *; simpl in *.
+           intros _. right. exists (S g). simpl. unfold defs_of in *; simpl in *.
            rewrite El, Ec, A2. unfold none_check. now rewrite Ea.
         -- destruct (pop_frame_fields st2) as (PS & PD & PK & _).
            split; [eapply Inv_core; eauto|].
@@ -431,7 +437,7 @@ Proof.
              - rewrite PK, K2. reflexivity.
              - intros j w Hl. rewrite PD. now apply M2.
              - rewrite (input_data_core _ _ PS PD). exact P2. }
-           exists (S g). simpl. unfold defs_of in *; simpl in *.
+           intros _. exists (S g). simpl. unfold defs_of in *; simpl in *.
            now rewrite El, Ec, A2.
     + destruct (IHb _ _ _ _ _ _ _ _ _ Eb ltac:(discriminate) I1) as (I2 & F2 & A2).
       change (defs_of st1) with (defs_of st) in A2. change (input_data st1) with (input_data st) in A2.
@@ -447,6 +453,7 @@ Proof.
         - rewrite RK, K2. reflexivity.
         - intros j w Hl. rewrite RD. now apply M2.
         - rewrite (input_data_core _ _ RS RD). exact P2. }
+      intros Hmk; openA.
       destruct A2 as [->|(g & A2)]; [now left|right].
       exists (S g). simpl. unfold defs_of in *; simpl in *.
       destruct (cl_cached cl) eqn:Ec.
@@ -457,14 +464,14 @@ Proof.
   - (* body *)
     intros st args locs whole rest idx r st' ln H Hr HI.
     destruct rest as [|s more]; simpl in H.
-    + inversion H; subst. repeat split; try apply HI; try apply frame_refl. exists 1. reflexivity.
-    + destruct s as [e|e h].
+    + inversion H; subst. leaf. exists 1. reflexivity.
+    + destruct s as [e|e h|e fc].
       * destruct (eval_expr f st args locs (stmt_line whole idx) e) as [[v|k|] st1] eqn:E1.
-        -- destruct (IHe _ _ _ _ _ _ _ E1 ltac:(discriminate) HI) as (I1 & F1 & (g1 & A1)).
+        -- destruct (IHe _ _ _ _ _ _ _ E1 ltac:(discriminate) HI) as (I1 & F1 & A1).
            destruct (frame_defs _ _ F1) as (D1 & P1).
            destruct (IHb _ _ _ _ _ _ _ _ _ H Hr I1) as (I2 & F2 & A2).
            rewrite D1, P1 in A2.
-           split; [assumption|]. split; [eapply frame_trans; eauto|].
+           split; [assumption|]. split; [eapply frame_trans; eauto|]. intros Hmk; openA. destruct A1 as (g1 & A1).
            destruct r as [w|kk|]; simpl in *.
            ++ destruct A2 as (g2 & A2). exists (S (Nat.max g1 g2)). simpl.
               rewrite (sp_expr_mono _ (Nat.max g1 g2) _ _ _ _ _ _ A1 ltac:(discriminate) ltac:(lia)).
@@ -475,16 +482,16 @@ Proof.
               apply (sp_body_mono _ _ _ _ _ _ _ _ A2); [discriminate|lia].
            ++ exact I.
         -- destruct (IHe _ _ _ _ _ _ _ E1 ltac:(discriminate) HI) as (I1 & F1 & A1).
-           inversion H; subst. split; [assumption|]. split; [assumption|].
+           inversion H; subst. split; [assumption|]. split; [assumption|]. intros Hmk; openA.
            destruct A1 as [->|(g1 & A1)]; [now left|right].
            exists (S g1). simpl. now rewrite A1.
         -- inversion H; subst. congruence.
       * destruct (eval_expr f st args locs (stmt_line whole idx + 1) e) as [[v|k|] st1] eqn:E1.
-        -- destruct (IHe _ _ _ _ _ _ _ E1 ltac:(discriminate) HI) as (I1 & F1 & (g1 & A1)).
+        -- destruct (IHe _ _ _ _ _ _ _ E1 ltac:(discriminate) HI) as (I1 & F1 & A1).
            destruct (frame_defs _ _ F1) as (D1 & P1).
            destruct (IHb _ _ _ _ _ _ _ _ _ H Hr I1) as (I2 & F2 & A2).
            rewrite D1, P1 in A2.
-           split; [assumption|]. split; [eapply frame_trans; eauto|].
+           split; [assumption|]. split; [eapply frame_trans; eauto|]. intros Hmk; openA. destruct A1 as (g1 & A1).
            destruct r as [w|kk|]; simpl in *.
            ++ destruct A2 as (g2 & A2). exists (S (Nat.max g1 g2)). simpl.
               rewrite (sp_expr_mono _ (Nat.max g1 g2) _ _ _ _ _ _ A1 ltac:(discriminate) ltac:(lia)).
@@ -497,13 +504,10 @@ Proof.
         -- destruct (IHe _ _ _ _ _ _ _ E1 ltac:(discriminate) HI) as (I1 & F1 & A1).
            destruct (frame_defs _ _ F1) as (D1 & P1).
            destruct (catchable k) eqn:Ek.
-           ++ assert (A1' : exists g1, sp_expr g1 (defs_of st) (input_data st) args locs e = Err k).
-              { destruct A1 as [->|A1]; [discriminate|exact A1]. }
-              destruct A1' as (g1 & A1').
-              set (st1' := upd_rolled st1 []) in *.
+           ++ set (st1' := upd_rolled st1 []) in *.
               assert (I1' : Inv st1') by exact I1.
               destruct (eval_expr f st1' args locs (stmt_line whole idx + 3) h) as [[v|k2|] st2] eqn:E2.
-              ** destruct (IHe _ _ _ _ _ _ _ E2 ltac:(discriminate) I1') as (I2 & F2 & (g2 & A2)).
+              ** destruct (IHe _ _ _ _ _ _ _ E2 ltac:(discriminate) I1') as (I2 & F2 & A2).
                  change (defs_of st1') with (defs_of st1) in A2.
                  change (input_data st1') with (input_data st1) in A2.
                  rewrite D1, P1 in A2.
@@ -512,7 +516,10 @@ Proof.
                  destruct (frame_defs _ _ F12) as (D2 & P2).
                  destruct (IHb _ _ _ _ _ _ _ _ _ H Hr I2) as (I3 & F3 & A3).
                  rewrite D2, P2 in A3.
-                 split; [assumption|]. split; [eapply frame_trans; eauto|].
+                 split; [assumption|]. split; [eapply frame_trans; eauto|]. intros Hmk; openA.
+                 assert (A1' : exists g1, sp_expr g1 (defs_of st) (input_data st) args locs e = Err k).
+                 { destruct A1 as [->|A1]; [discriminate|exact A1]. }
+                 destruct A1' as (g1 & A1'). destruct A2 as (g2 & A2).
                  set (G := Nat.max g1 g2).
                  destruct r as [w|kk|]; simpl in *.
                  --- destruct A3 as (g3 & A3). exists (S (Nat.max G g3)). simpl.
@@ -532,13 +539,87 @@ Proof.
                  inversion H; subst.
                  split; [assumption|].
                  split. { eapply frame_trans; [exact F1|]. destruct F2 as (a & b & c & d). repeat split; assumption. }
+                 intros Hmk; openA.
+                 assert (A1' : exists g1, sp_expr g1 (defs_of st) (input_data st) args locs e = Err k).
+                 { destruct A1 as [->|A1]; [discriminate|exact A1]. }
+                 destruct A1' as (g1 & A1').
                  destruct A2 as [->|(g2 & A2)]; [now left|right].
                  exists (S (Nat.max g1 g2)). simpl.
                  rewrite (sp_expr_mono _ (Nat.max g1 g2) _ _ _ _ _ _ A1' ltac:(discriminate) ltac:(lia)), Ek.
                  now rewrite (sp_expr_mono _ (Nat.max g1 g2) _ _ _ _ _ _ A2 ltac:(discriminate) ltac:(lia)).
               ** inversion H; subst. congruence.
-           ++ inversion H; subst. split; [assumption|]. split; [assumption|].
+           ++ inversion H; subst. split; [assumption|]. split; [assumption|]. intros Hmk; openA.
               destruct A1 as [->|(g1 & A1)]; [now left|right].
               exists (S g1). simpl. now rewrite A1, Ek.
+        -- inversion H; subst. congruence.
+      * (* SFin *)
+        destruct (eval_expr f st args locs (stmt_line whole idx + 1) e) as [[v|k|] st1] eqn:E1.
+        -- destruct (IHe _ _ _ _ _ _ _ E1 ltac:(discriminate) HI) as (I1 & F1 & A1).
+           destruct (frame_defs _ _ F1) as (D1 & P1).
+           destruct (eval_expr f st1 args locs (stmt_line whole idx + 3) fc) as [[w|k2|] st2] eqn:E2.
+           ++ destruct (IHe _ _ _ _ _ _ _ E2 ltac:(discriminate) I1) as (I2 & F2 & A2).
+              rewrite D1, P1 in A2.
+              assert (F12 : frame st st2) by (eapply frame_trans; eauto).
+              destruct (frame_defs _ _ F12) as (D2 & P2).
+              destruct (IHb _ _ _ _ _ _ _ _ _ H Hr I2) as (I3 & F3 & A3).
+              rewrite D2, P2 in A3.
+              split; [assumption|]. split; [eapply frame_trans; eauto|]. intros Hmk; openA.
+              destruct A1 as (g1 & A1). destruct A2 as (g2 & A2).
+              set (G := Nat.max g1 g2).
+              destruct r as [x|kk|]; simpl in *.
+              --- destruct A3 as (g3 & A3). exists (S (Nat.max G g3)). simpl.
+                  rewrite (sp_expr_mono _ (Nat.max G g3) _ _ _ _ _ _ A1 ltac:(discriminate) ltac:(lia)).
+                  rewrite (sp_expr_mono _ (Nat.max G g3) _ _ _ _ _ _ A2 ltac:(discriminate) ltac:(lia)).
+                  apply (sp_body_mono _ _ _ _ _ _ _ _ A3); [discriminate|lia].
+              --- destruct A3 as [->|(g3 & A3)]; [now left|right].
+                  exists (S (Nat.max G g3)). simpl.
+                  rewrite (sp_expr_mono _ (Nat.max G g3) _ _ _ _ _ _ A1 ltac:(discriminate) ltac:(lia)).
+                  rewrite (sp_expr_mono _ (Nat.max G g3) _ _ _ _ _ _ A2 ltac:(discriminate) ltac:(lia)).
+                  apply (sp_body_mono _ _ _ _ _ _ _ _ A3); [discriminate|lia].
+              --- exact I.
+           ++ destruct (IHe _ _ _ _ _ _ _ E2 ltac:(discriminate) I1) as (I2 & F2 & A2).
+              rewrite D1, P1 in A2. inversion H; subst.
+              split; [assumption|]. split; [eapply frame_trans; eauto|]. intros Hmk; openA.
+              destruct A1 as (g1 & A1).
+              destruct A2 as [->|(g2 & A2)]; [now left|right].
+              exists (S (Nat.max g1 g2)). simpl.
+              rewrite (sp_expr_mono _ (Nat.max g1 g2) _ _ _ _ _ _ A1 ltac:(discriminate) ltac:(lia)).
+              now rewrite (sp_expr_mono _ (Nat.max g1 g2) _ _ _ _ _ _ A2 ltac:(discriminate) ltac:(lia)).
+           ++ inversion H; subst. congruence.
+        -- destruct (IHe _ _ _ _ _ _ _ E1 ltac:(discriminate) HI) as (I1 & F1 & A1).
+           destruct (frame_defs _ _ F1) as (D1 & P1).
+           set (st1' := upd_rolled st1 []) in *.
+           assert (I1' : Inv st1') by exact I1.
+           destruct (eval_expr f st1' args locs (stmt_line whole idx + 3) fc) as [[w|k2|] st2] eqn:E2.
+           ++ destruct (IHe _ _ _ _ _ _ _ E2 ltac:(discriminate) I1') as (I2 & F2 & A2).
+              change (defs_of st1') with (defs_of st1) in A2.
+              change (input_data st1') with (input_data st1) in A2.
+              rewrite D1, P1 in A2. inversion H; subst.
+              split; [exact I2|].
+              split. { eapply frame_trans; [exact F1|]. destruct F2 as (a & b & c & d). repeat split; assumption. }
+              intros Hmk; openA.
+              destruct A2 as (g2 & A2).
+              destruct A1 as [->|(g1 & A1)]; [now left|right].
+              exists (S (Nat.max g1 g2)). simpl.
+              rewrite (sp_expr_mono _ (Nat.max g1 g2) _ _ _ _ _ _ A1 ltac:(discriminate) ltac:(lia)).
+              now rewrite (sp_expr_mono _ (Nat.max g1 g2) _ _ _ _ _ _ A2 ltac:(discriminate) ltac:(lia)).
+           ++ destruct (IHe _ _ _ _ _ _ _ E2 ltac:(discriminate) I1') as (I2 & F2 & A2).
+              change (defs_of st1') with (defs_of st1) in A2.
+              change (input_data st1') with (input_data st1) in A2.
+              rewrite D1, P1 in A2. inversion H; subst.
+              assert (F12 : frame st st2).
+              { eapply frame_trans; [exact F1|]. destruct F2 as (a & b & c & d). repeat split; assumption. }
+              destruct (ekind_eqb k KDeep) eqn:Ed.
+              { (* the depth-limit error is replaced: counted, nothing is claimed *)
+                split; [exact I2|]. split; [exact F12|].
+                intros Hmk. exfalso. clear A1 A2. mk. }
+              split; [exact I2|]. split; [exact F12|].
+              intros Hmk; openA.
+              destruct A1 as [->|(g1 & A1)]; [discriminate|].
+              destruct A2 as [->|(g2 & A2)]; [now left|right].
+              exists (S (Nat.max g1 g2)). simpl.
+              rewrite (sp_expr_mono _ (Nat.max g1 g2) _ _ _ _ _ _ A1 ltac:(discriminate) ltac:(lia)).
+              now rewrite (sp_expr_mono _ (Nat.max g1 g2) _ _ _ _ _ _ A2 ltac:(discriminate) ltac:(lia)).
+           ++ inversion H; subst. congruence.
         -- inversion H; subst. congruence.
 Qed.
